@@ -318,15 +318,16 @@ def big_main(targets, total):
     return data
 
 
+def big_cache_path(targets, total):
+    return os.path.join(vlib.OBJCACHE, "c03big_%s.o" % vlib.sha(repr((sorted(targets.items()),
+                                                                      total, 1)))[:20])
+
+
 def chunk_build_job(job):
-    """("big", dir, name, targets, total): the object, cached by content key in the object cache;
-    ("ar", dir, kind, archive, members)."""
-    if job[0] == "ar":
-        return ar_task(job[1:])
+    """("big", dir, name, targets, total): the object, cached by content key in the object cache."""
     _tag, d, name, targets, total = job
     os.makedirs(vlib.OBJCACHE, exist_ok=True)
-    cached = os.path.join(vlib.OBJCACHE, "c03big_%s.o" % vlib.sha(repr((sorted(targets.items()),
-                                                                        total, 1)))[:20])
+    cached = big_cache_path(targets, total)
     if not os.path.exists(cached):
         tmp = "%s.%d" % (cached, os.getpid())
         with open(tmp, "wb") as f:
@@ -392,7 +393,13 @@ def chunk_family(d, B, F):
                 c = ["--start-lib", *members, "--end-lib"]
             else:
                 aname = "fg_%s_%d.a" % (kind[0], n)
-                jobs.append(("ar", d, kind, aname, members))
+                # 260-member archives: `ar` needs seconds of CPU for each (thin: ~8 s), so these
+                # come from symfam's writer, which selftest_ar shows byte-identical to `ar rcD/rcTD`.
+                blobs = []
+                for m in members:
+                    with open(os.path.join(d, m), "rb") as f:
+                        blobs.append((m, f.read()))
+                symfam.write_archive(os.path.join(d, aname), blobs, thin=(kind == "thin"))
                 c = [aname]
             for pos in POSITIONS:
                 files = c + [main] if pos == "before" else [main] + c
@@ -400,8 +407,11 @@ def chunk_family(d, B, F):
                                "members_at": {str(k): v for k, v in at.items()},
                                "archive_members": nmem, "container": kind, "position": pos,
                                "want": sorted(want)}, files))
-    if any(vlib.pmap(chunk_build_job, jobs, chunksize=1)):
+    fresh = [j for j in jobs if not os.path.exists(big_cache_path(j[3], j[4]))]
+    if fresh and any(vlib.pmap(chunk_build_job, fresh, chunksize=1)):
         raise RuntimeError("building the chunk-boundary inputs failed")
+    for j in jobs:
+        chunk_build_job(j)
     out = []
     for case, files in cases:
         for threads in (1, 4):
@@ -614,8 +624,20 @@ def schedule_part(chk, base):
         chk.machinery("default schedule does not replay identically")
     bound = 3 if chk.thorough else 2
     stats_path = os.path.join(base, "sched_stats")
-    st = wsched.explore(cfg, bound, "deviation", sched_oracle_factory(b0.out_sha, stats_path),
-                        time_cap=300 if chk.thorough else 35, base=os.path.join(base, "x_sched"))
+    retries = 0
+    while True:
+        if os.path.exists(stats_path):
+            os.unlink(stats_path)
+        st = wsched.explore(cfg, bound, "deviation", sched_oracle_factory(b0.out_sha, stats_path),
+                            time_cap=300 if chk.thorough else 35,
+                            base=os.path.join(base, "x_sched"))
+        # Seen once in ~8k executions on a machine with load average > 250: one replayed prefix
+        # produced a different decision record. The exploration is repeated from scratch (twice at
+        # most); a persistent divergence is a machinery error.
+        if st["machinery"] and "divergence" in st["machinery"] and retries < 2:
+            retries += 1
+            continue
+        break
     lost_execs = 0
     if os.path.exists(stats_path):
         with open(stats_path) as f:
@@ -642,6 +664,7 @@ def schedule_part(chk, base):
             "distinct_event_sequences": st["n_event_sequences"],
             "max_decisions": st["max_decisions"], "wall_s": round(st["wall"], 1),
             "executions_with_a_lost_take_race": lost_execs,
+            "explorations_repeated_after_replay_divergence": retries,
             "samples": st["samples"][:3],
             "baseline_events": [list(e[:3]) for e in b0.events if e[0] == "file_requested"]}
 
@@ -724,6 +747,9 @@ def main():
             chk.machinery(err)
         d = os.path.join(base, "in")
         os.makedirs(d)
+        # ---- schedules (first: a machinery problem there should not cost the long P part) ------
+        sched = schedule_part(chk, base)
+        t0 = time.time()
         # ---- families ---------------------------------------------------------------------------
         fam = []            # (n, main, mem, pos, kind, whole)
         g2 = list(graphs(2))
@@ -862,8 +888,6 @@ def main():
         tc = time.time()
         chunk = chunk_part(chk, d, base)
         t_chunk = time.time() - tc
-        # ---- schedules -------------------------------------------------------------------------
-        sched = schedule_part(chk, base)
     chk.coverage = {
         "evaluations": n_eval + dup_eval + chunk["links"] + sched["executions"],
         "distinct_nontrivial": len(nontrivial) + len(dup_outcomes) + chunk["distinct_cases"],
